@@ -219,6 +219,12 @@ fn c10_async_file(case: &Case) {
     if let Some(p) = &preexisting {
         std::fs::write(&dest, p).unwrap();
     }
+    // a stale temp sibling, as an earlier killed pull would have left it
+    let stale_temp = simkernel::choose(4) == 0;
+    if stale_temp {
+        std::fs::write(&temp, bytes(pick(&[1usize, 50, 400, 5_000]))).unwrap();
+        simkernel::count("probe.stale_temp_sibling_present");
+    }
     let allow_fail = scen <= 1;
     let mut payload = draw_payload(chunk, allow_fail);
     if !matches!(payload, Payload::Reader(..) | Payload::Writer(..)) {
@@ -364,7 +370,7 @@ fn c10_async_file(case: &Case) {
             case.probe("pull_future_abandoned");
             let published = complete(&now_dest) && events.iter().any(|e| e.kind == "before_rename");
             case.check(now_dest == old || published, "partial-file-after-abandon", || format!("after the pull future was dropped the destination holds {:?} bytes (old {:?}, complete {})", now_dest.as_ref().map(|d| d.len()), old.as_ref().map(|d| d.len()), expected_file.len()));
-            case.check(!temp.exists(), "temp-file-left", || "an abandoned pull left the .svspart sibling behind".into());
+            case.check(!temp.exists() || (stale_temp && !events.iter().any(|ev| ev.kind == "created")), "temp-file-left", || "an abandoned pull left the .svspart sibling behind".into());
         }
         Some(Ok(())) => {
             if !case.check(!must_fail, "published-despite-failure", || format!("pull returned Ok although the transfer could not complete (producer_fails={producer_fails} verifier_rejects={verifier_rejects} trailer_too_long={trailer_too_long} rename_fails={rename_fails})")) {
@@ -379,7 +385,8 @@ fn c10_async_file(case: &Case) {
             if !rename_fails {
                 case.check(now_dest == old, "destination-touched-by-failed-pull", || format!("pull failed ({e}) but the destination changed: now {:?} bytes, was {:?}", now_dest.as_ref().map(|d| d.len()), old.as_ref().map(|d| d.len())));
             }
-            case.check(!temp.exists(), "temp-file-left", || format!("failed pull ({e}) left the .svspart sibling behind"));
+            // (a stale sibling of an earlier killed pull that this pull never got to re-create is not this pull's litter)
+            case.check(!temp.exists() || (stale_temp && !events.iter().any(|ev| ev.kind == "created")), "temp-file-left", || format!("failed pull ({e}) left the .svspart sibling behind"));
             if !(must_fail || conn_lost) {
                 case.fail("pull-failed-without-fault", format!("fault-free pull failed: {e}"));
             }
